@@ -51,12 +51,21 @@ class Freshness:
         env = {}
         params = fi.params[1:]
         # flow-insensitive: a local's verdict is the worst over its definitions (two passes for chains)
-        for _ in range(3):
-            for st in ast.walk(fi.node):
-                if isinstance(st, ast.Assign) and len(st.targets) == 1 and isinstance(st.targets[0], ast.Name):
-                    v = self.expr(st.value, env, cls, params)
-                    nm = st.targets[0].id
-                    env[nm] = worst(env[nm], v) if nm in env else v
+        # (optimistic start at FRESH for every assigned local, grown to a fixpoint: the order of the definitions in the text does not matter)
+        stores = [st for st in ast.walk(fi.node) if isinstance(st, ast.Assign) and len(st.targets) == 1 and isinstance(st.targets[0], ast.Name)]
+        for st in stores:
+            env[st.targets[0].id] = FRESH
+        for _ in range(12):
+            changed = False
+            for st in stores:
+                v = self.expr(st.value, env, cls, params)
+                nm = st.targets[0].id
+                w = worst(env[nm], v)
+                if w != env[nm]:
+                    env[nm] = w
+                    changed = True
+            if not changed:
+                break
         out = None
         for r in ast.walk(fi.node):
             if isinstance(r, ast.Return) and r.value is not None:
